@@ -324,7 +324,7 @@ fn main() {
             let v: Value = serde_json::from_slice(&body).unwrap_or_else(|e| harness_fail(&e.to_string()));
             let sc = registry::find_scenario(v["scenario"].as_str().unwrap_or("")).unwrap_or_else(|| harness_fail("scenario"));
             let script = ScriptJson { cfg: v["cfg"].clone(), actions: v["actions"].as_array().cloned().unwrap_or_default() };
-            replay_inner_main(sc.as_ref(), &script);
+            replay_inner_main(sc.as_ref(), &script, v["from"].as_u64().unwrap_or(0) as usize);
             0
         }
         Some("digest") if args.len() >= 5 => {
